@@ -89,3 +89,18 @@ Example C18_example :
   = Ok [97; 37;50;70; 233; 37;50;53; 32; 37;69;50;37;56;48;37;56;66].
 Proof. vm_compute. reflexivity. Qed.
 Print Assumptions C18_example.
+
+(** Tie to the source by translation: URL.human_repr (yarl/_url.py) is re-read from the
+    working tree on every run (harness/gen_model.py: the decoded accessors it reads are bound in
+    source order, human_quote of an Optional is hq_opt, the bracketing of a host with ':', the
+    query as "&".join of "{}={}".format(human_quote(k, Q), human_quote(v, Q)) over the decoded
+    pairs) and proved equal to the model function the theorems above are about.  human_quote
+    itself (yarl/_quoters.py) is a loop over str.replace followed by isprintable / urllib
+    quote: its source text is pinned (any edit fails closed) and read as Model.Url.human_quote. *)
+From Yarl Require Import Model.Url Generated.QuotersGen Generated.UrlGen Proofs.GenHumanProofs.
+Theorem C18_source_human_repr : forall (O : oracles) (B : backend) (u : url), gen_human_repr O B u = human_repr O B u.
+Proof. exact gen_human_repr_ok. Qed.
+Print Assumptions C18_source_human_repr.
+Theorem C18_source_human_quote : forall s unsafe : str, gen_human_quote s unsafe = human_quote s unsafe.
+Proof. exact gen_human_quote_ok. Qed.
+Print Assumptions C18_source_human_quote.
